@@ -189,6 +189,14 @@ func (u *Universe) InlineUnknownHelpers(known func(key string) bool) ([]InlineRe
 			}
 			InvalidateDom(fn)
 			touched[fn] = true
+			if strings.HasPrefix(fn.Synthetic, "bound method wrapper") {
+				// `s.visit` handed over as a function value: with the method expanded into it the
+				// wrapper is an ordinary closure over s
+				if u.ExpandedWrappers == nil {
+					u.ExpandedWrappers = map[*ssa.Function]bool{}
+				}
+				u.ExpandedWrappers[fn] = true
+			}
 		}
 	}
 	for _, fn := range repo {
